@@ -42,11 +42,11 @@ def make(cfg, sched=None, keep_log=False):
 
     s.term = TermModel(cfg["h"], cfg["w"], reply=reply, onlcr=onlcr, c1_reply=cfg.get("c1_reply", False))
     s.world.term = s.term
-    s.out = SimOut(s.world, s.term)
+    s.out = SimOut(s.world, s.term, cfg.get("out_buffer", "none"))
     s.inp = SimIn(s.world, s.kernel, s.fd, enc)
     s.world.env_handlers["arrive"] = lambda hexdata: s.kernel.arrive(s.fd, bytes.fromhex(hexdata))
     s.world.env_handlers["signal"] = lambda signum: s.kernel.sig.post(signum)
-    seams.bind(s.world, s.kernel, enc, cfg.get("read_size"))
+    seams.bind(s.world, s.kernel, enc, cfg.get("read_size"), cfg.get("locale_name"))
     return s
 
 
